@@ -244,7 +244,9 @@ impl Driver {
             self.after_run(w, rng, idx, e);
         }
         while let Some(Reverse((t, _, a))) = self.heap.pop() {
-            if w.stats.events as u32 >= self.cap || mon.stop {
+            // bounded runs: event cap, and a size cap so that one pathological history cannot eat the batch's budget
+            let too_big = w.runs.last().map(|r| r.out.data.len() > 400_000).unwrap_or(false);
+            if w.stats.events as u32 >= self.cap || mon.stop || too_big {
                 mon.capped = self.heap.len() as u32 + 1;
                 break;
             }
